@@ -46,6 +46,14 @@ impl FileReader<File> for DefaultFileReader {
     where
         File: Read,
     {
+        // a sourceMappingURL may name anything: only a regular file is read (opening a FIFO that
+        // nobody writes to blocks for ever)
+        if !std::fs::metadata(path)?.is_file() {
+            return Err(std::io::Error::new(
+                std::io::ErrorKind::InvalidInput,
+                "not a regular file",
+            ));
+        }
         File::open(path)
     }
 }
